@@ -70,16 +70,19 @@ def build():
     defs.append(("cut_answers_type", "N", "%d%%N" % vals[m.group(1)]))
     one(r"AnswerAuthority::new\(\s*cut\.name\.clone\(\)\s*,\s*None\s*,\s*Some\(cut\.ns\.clone\(\)\)\s*,\s*cut\.ds\.as_ref\(\)\.cloned\(\)\s*,?\s*\)\s*,\s*AnswerAdditional::new\(cut\.glue\.clone\(\)\)", qc, "query_at_cut referral")
     hb = fn_body(rd, "query_node_here_but_not_below")
-    one(r"Some\(Special::Cut\(cut\)\)\s*=>\s*self\.query_at_cut\(cut,\s*qtype\)\s*,\s*Some\(Special::Cname\(cname\)\)\s*=>\s*NodeAnswer::cname\(cname\.clone\(\)\)\s*,\s*Some\(Special::NxDomain\)\s*=>\s*NodeAnswer::nx_domain\(\)\s*,\s*None\s*=>\s*self\.query_rrsets\(node\.rrsets\(\),\s*qtype,\s*walk\)\s*,", hb, "query_node_here_but_not_below arms")
+    one(r"Some\(Special::Cut\(cut\)\)\s*=>\s*self\.query_at_cut\(cut,\s*qtype\)\s*,\s*Some\(Special::Cname\(cname\)\)\s*=>\s*NodeAnswer::cname\(cname\.clone\(\)\)\s*,\s*Some\(Special::NxDomain\)\s*\|\s*None\s*=>\s*\{\s*self\.query_rrsets\(node\.rrsets\(\),\s*qtype,\s*walk\)\s*\}", hb, "query_node_here_but_not_below arms")
+    defs.append(("marker_answers_like_unmarked", "bool", "true"))
     ha = fn_body(rd, "query_node_here_and_below")
-    one(r"Some\(Special::NxDomain\)\s*=>\s*\{\s*if\s+walk\.enabled\(\)\s*\{[^}]*\}\s*NodeAnswer::nx_domain\(\)\s*\}", ha, "here_and_below NxDomain arm does not descend")
-    defs.append(("nxdomain_marker_stops_descent", "bool", "true"))
+    one(r"Some\(Special::NxDomain\)\s*\|\s*None\s*=>\s*self\.query_children\(", ha, "here_and_below: marked and unmarked nodes descend")
+    if len(re.findall(r"Special::NxDomain", ha)) != 1:
+        raise GenError("here_and_below mentions the NxDomain marker elsewhere")
+    defs.append(("marker_descends_like_unmarked", "bool", "true"))
     one(r"Some\(Special::Cname\(cname\)\)\s*=>\s*\{\s*if\s+walk\.enabled\(\)\s*\{.*?\}\s*self\.query_children\(", ha, "here_and_below Cname arm descends")
-    one(r"None\s*=>\s*self\.query_children\(", ha, "here_and_below None arm descends")
     one(r"Some\(Special::Cut\(cut\)\)\s*=>\s*\{\s*if\s+walk\.enabled\(\)\s*\{.*?\}\s*else\s*\{\s*NodeAnswer::authority\(", ha, "here_and_below Cut arm refers")
     ch = fn_body(rd, "query_children")
-    one(r"let\s+answer\s*=\s*children\.with\(label,\s*\|node\|\s*\{\s*node\.map\(\|node\|\s*self\.query_node\(node,\s*qname,\s*qtype,\s*walk\.clone\(\)\)\)\s*\}\);\s*if\s+let\s+Some\(answer\)\s*=\s*answer\s*\{\s*return\s+answer;\s*\}\s*children\.with\(Label::wildcard\(\),\s*\|node\|\s*match\s+node\s*\{\s*Some\(node\)\s*=>\s*\{\s*self\.query_node_here_but_not_below\(node,\s*qtype,\s*walk\)\s*\}\s*None\s*=>\s*NodeAnswer::nx_domain\(\)\s*,\s*\}\)", ch, "query_children exact child, else wildcard child, else NXDOMAIN")
+    one(r"let\s+answer\s*=\s*children\.with\(label,\s*\|node\|\s*\{\s*node\.filter\(\|node\|\s*node\.exists\(self\.version\)\)\s*\.map\(\|node\|\s*self\.query_node\(node,\s*qname,\s*qtype,\s*walk\.clone\(\)\)\)\s*\}\);\s*if\s+let\s+Some\(answer\)\s*=\s*answer\s*\{\s*return\s+answer;\s*\}\s*children\.with\(Label::wildcard\(\),\s*\|node\|\s*\{\s*match\s+node\.filter\(\|node\|\s*node\.exists\(self\.version\)\)\s*\{\s*Some\(node\)\s*=>\s*\{\s*self\.query_node_here_but_not_below\(node,\s*qtype,\s*walk\)\s*\}\s*None\s*=>\s*NodeAnswer::nx_domain\(\)\s*,\s*\}\s*\}\)", ch, "query_children: existing exact child, else existing wildcard child, else NXDOMAIN")
     defs.append(("children_exact_then_wildcard", "bool", "true"))
+    defs.append(("children_filtered_by_exists", "bool", "true"))
     qn = fn_body(rd, "query_node")
     one(r"else\s+if\s+let\s+Some\(label\)\s*=\s*qname\.next\(\)\s*\{\s*self\.query_node_here_and_below\(node,\s*label,\s*qname,\s*qtype,\s*walk\)\s*\}\s*else\s*\{\s*self\.query_node_here_but_not_below\(node,\s*qtype,\s*walk\)\s*\}", qn, "query_node")
     q = fn_body(rd, "query", after="impl ReadableZone for ReadZone")
@@ -91,6 +94,10 @@ def build():
     up = fn_body(nd, "update", after="impl NodeRrsets")
     one(r"if\s+rrset\.is_empty\(\)\s*\{\s*self\.remove_rtype\(rrset\.rtype\(\),\s*version\);\s*\}\s*else\s*\{", up, "NodeRrsets::update removes on empty")
     defs.append(("empty_rrset_update_removes", "bool", "true"))
+    ex = fn_body(nd, "exists", after="impl ZoneNode")
+    one(r"^\s*!self\.rrsets\.is_empty\(version\)\s*\|\|\s*self\.with_special\(version,\s*\|special\|\s*\{\s*matches!\(\s*special,\s*Some\(Special::Cut\(_\)\)\s*\|\s*Some\(Special::Cname\(_\)\)\s*\)\s*\}\)\s*\|\|\s*self\.children\.any_exists\(version\)\s*$", ex, "ZoneNode::exists")
+    one(r"^\s*self\.children\s*\.read\(\)\s*\.values\(\)\s*\.any\(\|item\|\s*item\.exists\(version\)\)\s*$", fn_body(nd, "any_exists"), "NodeChildren::any_exists")
+    defs.append(("exists_is_own_data_or_special_or_child", "bool", "true"))
     ra = fn_body(nd, "remove_all", after="impl ZoneNode")
     one(r"^\s*self\.rrsets\.remove_all\(version\);\s*self\.special\.write\(\)\.remove\(version\);\s*self\.children\.remove_all\(version\);\s*$", ra, "ZoneNode::remove_all")
     # ---- write.rs
